@@ -132,14 +132,23 @@ def tables(cfg, crate, rep):
     # EKU
     fn = P + "convert_x509_extended_key_usages"
     rep.fn(fn)
-    pairs = c07.eku_pairs(crate.body(fn))
+    Ie = Interp(crate)
+    Ie.run_fn(fn)
+    pairs = common.eku_pairs_interp(Ie)
     want = {"any": "Any", "server_auth": "ServerAuth", "client_auth": "ClientAuth", "code_signing": "CodeSigning", "email_protection": "EmailProtection", "time_stamping": "TimeStamping", "ocsp_signing": "OcspSigning"}
     rep.ob("C17.tables", "%s|%s" % (cfg, fn), pairs == want, "each standard EKU flag maps to the like-named variant", expected=want, found=pairs)
     # SAN: every entry through try_from_general
     fn = P + "convert_x509_subject_alternative_name"
     rep.fn(fn)
-    calls = [c for c, n, ps in common.calls_in(crate.body(fn))]
-    rep.ob("C17.tables", "%s|%s" % (cfg, fn), "SanType::try_from_general" in calls and any(c.endswith("subject_alternative_name") for c in calls), "SAN entries are converted by the shared GeneralName converter")
+    Is = Interp(crate)
+    outs = Is.run_fn(fn)
+    cs = calls_of(outs["value"])
+    conv = [a for c, a, n, cond, f in Is.calls if c.endswith("SanType::try_from_general") and a]
+    arg = core(conv[0][0]).r() if len(conv) == 1 else ""
+    ok = any(c.endswith("SanType::try_from_general") for c in cs) and any(c.endswith("subject_alternative_name") for c in cs) \
+        and arg.endswith("[]") and ".general_names" in arg and "subject_alternative_name(x509)" in arg
+    rep.ob("C17.tables", "%s|%s" % (cfg, fn), ok, "every entry of the certificate's subjectAltName general_names is converted by the shared GeneralName converter and the results are what is returned",
+           found={"converter_arg": arg[-80:], "calls_in_result": sorted(c.split("::")[-1] for c in cs)})
     c07.san_back(cfg, crate, rep)
     for o in rep.obligations:
         if o["rule"] == "C07.back" and "try_from_general" in o["key"]:
@@ -168,29 +177,75 @@ def tables(cfg, crate, rep):
     norm = [(a, g, sorted(o), s) for a, g, o, s in got]
     wantn = [(a, g, sorted(o), s) for a, g, o, s in want]
     rep.ob("C17.tables", "%s|%s" % (cfg, fn), norm == wantn, "GeneralName -> GeneralSubtree arms invert the writer's table; subnets are split addr||mask at 4 / 16 under a dominating length test 8 / 32", expected=wantn, found=norm)
-    # is_ca
+    # is_ca: decision table over {extension present, cA, pathLen present, pathLen <= 255}
     fn = P + "convert_x509_is_ca"
     rep.fn(fn)
-    b = crate.body(fn)
-    ms = arms_of(b, lambda n: any("path_len_constraint" in patsum(a["pat"]) for a in n["arms"]))
-    got = []
-    if ms:
-        for a in ms[0]["arms"]:
-            g = None
-            if a.get("guard"):
-                ops = [x["op"] for x in common.hir_walk(a["guard"]) if x["k"] == "Binary"]
-                mx = any("MAX" in str(x.get("def")) for x in common.hir_walk(a["guard"]))
-                u8 = any("u8" in x.get("ty", "") for x in common.hir_walk(a["guard"]))
-                g = "%s u8::MAX" % ops[0] if ops and mx and u8 else "?"
-            body = a["body"]
-            out = "Err" if body["k"] == "Ret" else "+".join(ctors_in(body, "certificate::"))
-            got.append((patsum(a["pat"]), g, out))
-    want = [("Some(BasicConstraints{ca:True,path_len_constraint:Some($n)})", "<= u8::MAX", "Ca+Constrained"),
-            ("Some(BasicConstraints{ca:True,path_len_constraint:Some(_)})", None, "Err"),
-            ("Some(BasicConstraints{ca:True,path_len_constraint:None})", None, "Ca+Unconstrained"),
-            ("Some(BasicConstraints{ca:False,..})", None, "ExplicitNoCa"),
-            ("None", None, "NoCa")]
-    rep.ob("C17.tables", "%s|%s" % (cfg, fn), got == want, "basicConstraints arms: ca&Some(n<=255)->Ca(Constrained(n)); ca&Some(_)->Err; ca&None->Ca(Unconstrained); !ca->ExplicitNoCa; absent->NoCa", expected=want, found=got)
+    Ic = Interp(crate)
+    outc = Ic.run_fn(fn)
+    somes = sorted((a[1] for c, v, n, f in Ic.fails for a in F.atoms(c) if a[0] == "some"), key=len)
+    v0 = core(outc["value"])
+    inner = core(v0.fields.get("0")) if isinstance(v0, StructV) and v0.variant == "Ok" else v0
+    if isinstance(inner, PhiV):
+        somes = sorted(set(somes) | {a[1] for c, x in inner.alts for a in F.atoms(c) if a[0] == "some"}, key=len)
+    bc = somes[0] if somes else None
+    ok = False
+    found = None
+    if bc and "basic_constraints(x509)" in bc:
+        plc = bc + "?.path_len_constraint"
+
+        def classify(a):
+            if a[0] == "some" and a[1] == bc:
+                return ("present", True)
+            if a[0] == "true" and a[1] == bc + "?.ca":
+                return ("ca", True)
+            if a[0] == "some" and a[1] == plc:
+                return ("plc", True)
+            ub = common.upper_bound(Ic, a)
+            if ub and ub[0] == plc + "?" and ub[1] == 255:
+                return ("fits", True)
+            return None
+        names = ["present", "ca", "plc", "fits"]
+        tab, err = common.decision_table(Ic, outc, fn, classify, names)
+        found = err
+
+        def summ(kind, v):
+            if kind == "Err":
+                return "Err"
+            x = core(v)
+            if isinstance(x, StructV) and x.variant == "Ok":
+                x = core(x.fields.get("0"))
+            if not isinstance(x, StructV):
+                return "?" + x.r()[:40]
+            nm = (x.variant or "").split("::")[-1]
+            if nm == "Ca":
+                y = core(x.fields.get("0"))
+                ynm = (getattr(y, "variant", None) or "?").split("::")[-1]
+                if ynm == "Constrained":
+                    z = y.fields.get("0")
+                    zr = core(z).r()
+                    exact = zr == plc + "?" and not [r_ for r_ in roots(z) if r_.startswith("op:")]
+                    return "Ca(Constrained(%s))" % ("n" if exact else zr[-40:])
+                return "Ca(%s)" % ynm
+            return nm
+        if tab is not None:
+            def ref(present, ca, plc_, fits):
+                if not present:
+                    return "NoCa"
+                if not ca:
+                    return "ExplicitNoCa"
+                if not plc_:
+                    return "Ca(Unconstrained)"
+                return "Ca(Constrained(n))" if fits else "Err"
+            bad = {}
+            for bits, (kind, v) in tab.items():
+                got = summ(kind, v)
+                if got != ref(*bits):
+                    bad[str(dict(zip(names, bits)))] = "%s, expected %s" % (got, ref(*bits))
+            ok = not bad
+            found = bad or "16 assignments agree"
+    else:
+        found = "basic constraints source not found (%s)" % (bc or "")[-80:]
+    rep.ob("C17.tables", "%s|%s" % (cfg, fn), ok, "basicConstraints decision table: absent->NoCa; cA=false->ExplicitNoCa; cA, no pathLen->Ca(Unconstrained); cA, pathLen n<=255->Ca(Constrained(n)); cA, pathLen>255->Err", found=found)
     # name constraints: permitted <- permitted_subtrees, excluded <- excluded_subtrees
     fn = P + "convert_x509_name_constraints"
     rep.fn(fn)
